@@ -104,6 +104,7 @@ def run_chunk(args):
     stats = Counter()
     states, transitions = set(), set()
     nontrivial = set()
+    masks = set()
     digests = []
     found = []
     other = Counter()
@@ -125,6 +126,7 @@ def run_chunk(args):
         stats["runs"] += 1
         states |= {hashlib.md5(repr(s).encode()).digest()[:8] for s in w.states}
         transitions |= {hashlib.md5(repr(s).encode()).digest()[:8] for s in w.transitions}
+        masks |= getattr(w, "masks", set())
         d = w.digest()
         digests.append((i, d[:16]))
         changing = w.stats["mutations"] + w.stats["adds"] + w.stats["removes"] + w.stats["assigns"]
@@ -144,7 +146,7 @@ def run_chunk(args):
             samples.append({"index": i, "seed": seed, "config": cfg, "ops": [summarise_op(o) for o in ops][:40]})
     faulthandler.cancel_dump_traceback_later()
     return {"stats": stats, "states": states, "transitions": transitions, "nontrivial": nontrivial,
-            "digests": digests, "found": found, "other": other, "samples": samples, "done": done}
+            "digests": digests, "found": found, "other": other, "samples": samples, "done": done, "masks": masks}
 
 
 def load_known():
@@ -173,7 +175,7 @@ def batch(prop, tier, base, nruns, wall, jobs):
     chunk = 40 if engine_of(prop) == "W1" else 150
     tasks = [(prop, tier, base, list(range(s, min(s + chunk, nruns))), deadline) for s in range(0, nruns, chunk)]
     agg = {"stats": Counter(), "states": set(), "transitions": set(), "nontrivial": set(), "digests": [],
-           "found": [], "other": Counter(), "samples": [], "done": 0}
+           "found": [], "other": Counter(), "samples": [], "done": 0, "masks": set()}
     ctx = mp.get_context("fork")
     with cf.ProcessPoolExecutor(max_workers=jobs, mp_context=ctx) as ex:
         futs = [ex.submit(run_chunk, t) for t in tasks]
@@ -189,6 +191,7 @@ def batch(prop, tier, base, nruns, wall, jobs):
                 agg["states"] |= r["states"]
                 agg["transitions"] |= r["transitions"]
                 agg["nontrivial"] |= r["nontrivial"]
+                agg["masks"] |= r.get("masks", set())
                 agg["digests"].extend(r["digests"])
                 agg["found"].extend(r["found"])
                 agg["done"] += r["done"]
@@ -198,6 +201,25 @@ def batch(prop, tier, base, nruns, wall, jobs):
             raise HarnessError("worker pool timed out (a worker hung or died)")
     agg["wall"] = time.time() - t0
     return agg
+
+
+def replay_fixed(known, prop):
+    """A 'fixed' entry suppresses nothing: its minimised history is re-executed on every run of
+    the property's check and reported again if the violation has come back."""
+    out = []
+    for k in known:
+        if k.get("status") != "fixed" or k["property"] != prop or not k.get("replay"):
+            continue
+        path = os.path.join(VERIF, k["replay"])
+        if not os.path.exists(path):
+            continue
+        with open(path) as f:
+            rec = json.load(f)
+        vs, _w = execute(rec["engine"], rec["config"], gen.from_json(rec["ops"]))
+        target = tuple(rec["class"])
+        if any(vclass(x) == target for x in vs):
+            out.append((path, target))
+    return out
 
 
 def minimise_and_write(prop, tier, item):
@@ -286,6 +308,7 @@ def check(prop, tier, seed=None, nruns=None, wall=None, jobs=None):
             new.append(item)
     lines = []
     rc_ = 0
+    regress = replay_fixed(known, prop)
     for what in knownhits:
         lines.append(f"KNOWN-FINDING: property={prop} {what}")
     replay_paths = []
@@ -301,7 +324,12 @@ def check(prop, tier, seed=None, nruns=None, wall=None, jobs=None):
         lines.append(f"  class={list(c)} seed={item['seed']} ops {rec['original_len']}->{rec['minimised_len']} "
                      f"detail={json.dumps(rec['violation'].get('detail'), default=repr)[:300]}")
         rc_ = 1
-    write_evidence(prop, tier, base, agg, time.time() - t0, len(new), list(knownhits), replay_paths)
+    for path, target in regress:
+        lines.append(f"VIOLATION property={prop} replay={path}")
+        lines.append(f"  class={list(target)} (a finding recorded as fixed reproduces again)")
+        replay_paths.append(path)
+        rc_ = 1
+    write_evidence(prop, tier, base, agg, time.time() - t0, len(new) + len(regress), list(knownhits), replay_paths)
     for ln in lines:
         print(ln)
     st = agg["stats"]
@@ -350,6 +378,7 @@ def write_evidence(prop, tier, base, agg, wall, nviol, knownhits, replay_paths):
             "readbacks": st["readbacks"], "reader_calls": st["reader_calls"], "raw_io": {k: n for k, n in st.items() if k.startswith("raw_")},
             "runs_with_violation": st["runs_with_violation"], "stopped_by_other_property": dict(agg["other"]),
             "known_findings_reconfirmed": knownhits, "replays": replay_paths,
+            "presence_masks_covered": mask_coverage(agg.get("masks", set())),
             "real_components": REAL, "stubbed_components": STUB, "tree": tree_id(),
         },
         "assumptions": ["the reference codec (simtdf/refcodec.py) is a correct reading of the TDF layout",
@@ -359,6 +388,14 @@ def write_evidence(prop, tier, base, agg, wall, nviol, knownhits, replay_paths):
     os.makedirs(os.path.join(VERIF, "evidence"), exist_ok=True)
     with open(os.path.join(VERIF, "evidence", f"{prop}.json"), "w") as f:
         json.dump(ev, f, indent=1, default=repr)
+
+
+def mask_coverage(masks):
+    """Per track kind and frame count n <= 10: how many of the 2^n presence masks were stored."""
+    out = {}
+    for kind, m in masks:
+        out.setdefault(kind, Counter())[len(m)] += 1
+    return {k: {f"n={n}": f"{c}/{2 ** n}" for n, c in sorted(v.items()) if n} for k, v in sorted(out.items())}
 
 
 def digests(prop, tier, base, n):
